@@ -17,7 +17,8 @@ class DistinctRewriteConfig : public DefaultRewriterConfig {
 public:
     DistinctRewriteConfig(Logic & logic) : logic(logic) {}
 
-    bool previsit(PTRef term) override { return logic.hasSortBool(term); }
+    // a distinct may sit below a term of another sort (a Boolean argument of an uninterpreted function): descend everywhere
+    bool previsit(PTRef) override { return true; }
 
     PTRef rewrite(PTRef ptr) override {
         if (logic.isDisequality(ptr) and doRewriteDistinct(ptr)) {
